@@ -518,6 +518,78 @@ def run_directed(seed, stream, nren, collect=False):
       done.append([act])
 
 
+def run_sisters(seed, nren):
+  """Two (or three) summary tables of ONE source table whose same-named ("sister") formula columns hold DIFFERENT
+  formulas mentioning a source column; then the source columns are renamed by RenameColumn, colId and label paths.
+  Every sister must keep its own formula, rewritten only in the renamed name tokens, and its values."""
+  rng = random.Random(seed)
+  S = rng.choice(['Address', 'Tt', 'Orders'])
+  c1, c2, n1, n2, tag = rng.sample(['city', 'state', 'amount', 'qty', 'tag', 'kind', 'A', 'B', 'C', 'Ea', 'val'], 5)
+  col = lambda i, t: {'id': i, 'type': t, 'isFormula': False}
+  bundles = [
+    [['AddTable', S, [col(c1, 'Text'), col(c2, 'Text'), col(n1, rng.choice(['Numeric', 'Int'])), col(n2, 'Int'),
+                      col(tag, 'Text')]]],
+    [['BulkAddRecord', S, [None] * 5, {c1: ['a', 'b', 'a', 'c', 'b'], c2: ['x', 'y', 'x', 'z', 'y'],
+                                       n1: [1, 2, 30, 4, 50], n2: [5, 4, 3, 2, 1], tag: ['p', 'q', 'p', '', 'q']}]],
+    [['CreateViewSection', 1, 0, 'record', [2], None]],       # by c1 (column refs: manualSort 1, c1 2, c2 3 ...)
+    [['CreateViewSection', 1, 0, 'record', [3], None]],       # by c2
+  ]
+  s1, s2 = '%s_summary_%s' % (S, c1), '%s_summary_%s' % (S, c2)
+  summaries = [s1, s2]
+  if rng.random() < 0.5:
+    bundles.append([['CreateViewSection', 1, 0, 'record', [2, 3], None]])
+    summaries.append('%s_summary_%s' % (S, '_'.join(sorted([c1, c2]))))
+  aggs = ['MAX($group.%s)', 'MIN($group.%s)', 'len($group.%s)', 'list($group.%s)', 'SUM(r.%s for r in %s.all)',
+          '[x for x in $group.%s if x]', 'SUM($group.%s) + 1']
+  fmt = lambda a, c: a % ((c, S) if a.count('%s') == 2 else (c,))
+  # (a) the automatic numeric sister n1 = SUM($group.n1) is replaced by something else in some summary tables
+  for st in rng.sample(summaries, rng.randint(1, len(summaries) - 1)):
+    bundles.append([['RemoveColumn', st, n1]])
+    bundles.append([['AddColumn', st, n1, {'type': 'Any', 'isFormula': True, 'formula': fmt(rng.choice(aggs), n1)}]])
+  # (b) a sister named after a source column without an automatic copy: a different formula in every summary table
+  for st, a in zip(summaries, rng.sample(aggs, len(summaries))):
+    bundles.append([['AddColumn', st, tag, {'type': 'Any', 'isFormula': True, 'formula': fmt(a, tag)}]])
+  # (c) sisters not named after a source column, mentioning n2
+  for st, a in zip(summaries, rng.sample(aggs, len(summaries))):
+    bundles.append([['AddColumn', st, 'extra', {'type': 'Any', 'isFormula': True, 'formula': fmt(a, n2)}]])
+
+  def build(done):
+    e, _ = G.new_doc()
+    for bundle in done:
+      try_apply(e, None, bundle)
+    return e
+  done = list(bundles)
+  e = build(done)
+  fresh = ['paid', 'Part', 'Zz', 'X9', 'tot2', 'w_1', 'Quantity', 'Label 2']
+  rng.shuffle(fresh)
+  for k in range(nren):
+    m = histgen.Meta(e)
+    src = m.table_by_id.get(S) or next((t for t in m.user_tables()), None)
+    if src is None:
+      break
+    cols = [c for c in m.data_cols(src['id']) if c['type'] in ('Int', 'Numeric', 'Text')]
+    cols = [c for c in cols if c['colId'] not in (c1, c2)] or cols      # mostly the columns the sisters mention
+    c = rng.choice(cols)
+    new = fresh[k % len(fresh)] + ('' if k < len(fresh) else str(k))
+    path = rng.choice(['RenameColumn', 'RenameColumn', 'colId', 'label', 'label', 'label_retie'])
+    if k < 2:
+      path = ['RenameColumn', 'label'][(k + seed) % 2]      # every document sees both main paths
+    if path == 'RenameColumn':
+      act = ['RenameColumn', src['tableId'], c['colId'], new]
+    elif path == 'colId':
+      act = ['UpdateRecord', '_grist_Tables_column', c['id'], {'colId': new}]
+    elif path == 'label':
+      act = ['UpdateRecord', '_grist_Tables_column', c['id'], {'label': new}]
+    else:
+      act = ['UpdateRecord', '_grist_Tables_column', c['id'], {'label': new, 'untieColIdFromLabel': False}]
+    status, info, problems = check_rename(e, act, list(done))
+    yield list(done), path, act, status, info, problems, None
+    if problems:
+      e = build(done)
+    else:
+      done.append([act])
+
+
 def replay(ctx, w):
   """Re-runs a recorded scenario: the bundles (failures ignored, document cleaned), then the rename."""
   e, _ = G.new_doc()
@@ -623,7 +695,8 @@ def run_streams(ctx):
   Returns the list of judged renames: dicts(stream, mode, seed, bundles, path, act, status, info, problems, trees)."""
   plan = [('main', 'random', ctx.n(18, 320)), ('main', 'directed', ctx.n(1, 12)),
           ('clash', 'directed', ctx.n(1, 6)), ('gaps', 'directed', ctx.n(1, 6)),
-          ('clash', 'random', ctx.n(1, 30)), ('gaps', 'random', ctx.n(1, 30))]
+          ('clash', 'random', ctx.n(1, 30)), ('gaps', 'random', ctx.n(1, 30)),
+          ('sisters', 'sisters', ctx.n(3, 40))]
   out = []
   # the witnesses of the FIXED findings stay in the corpus and run first: the rename must now be rejected without trace
   for k in core.load_known():
@@ -645,6 +718,8 @@ def run_streams(ctx):
       collect = ctx.tier == 'thorough' or k % 2 == 0       # what parse_grist_names reports is recorded for these
       if mode == 'random':
         it = run_history(seed, stream, 8, 5, collect=collect)
+      elif mode == 'sisters':
+        it = run_sisters(seed, ctx.n(3, 6))
       else:
         it = run_directed(seed, stream, ctx.n(4, 12), collect=collect)
       for done, path, act, status, info, problems, gen in it:
@@ -828,6 +903,7 @@ def search(ctx):
   if runs is None:
     runs = run_streams(ctx)
   reported_kinds = collections.Counter()
+  per_path = collections.Counter()
   for r in runs:
     info = r['info']
     exercised = r['status'] == 'applied' and info.get('renamed', 0) > 0 and info.get('touched', 0) > 0
@@ -840,8 +916,9 @@ def search(ctx):
       ctx.bump('new name already mentioned by a formula (values not compared)')
     for kind, what in r['problems']:
       reported_kinds[kind] += 1
-      if reported_kinds[kind] > 3:
-        continue          # one root cause is reported with at most three witnesses
+      per_path[(kind, r['path'])] += 1
+      if per_path[(kind, r['path'])] > 2:
+        continue          # one failure mode is reported with at most two witnesses per rename path
       w = {'bundles': r['bundles'], 'rename': r['act'], 'kind': kind}
       if kind.split(':')[0] not in KINDS:
         # an unrecognised failure: minimise the history before reporting it
